@@ -384,12 +384,16 @@ class TClient:
         w.net.fates = fates
         parms = (SPA_ADDR[0], SPA_ADDR[1], SPA_ID, CLIENT_ID)
         w.net.clock.t = w.now()
-        with stepped.patched_clock(w.clock):
-            req = GeckoStatusBlockProtocolHandler.request(
-                client.get_and_increment_sequence_counter(False), start, length, parms=parms
-            )
-            req._retry_count = N
-            st.retry_request(client, req, parms)
+        try:
+            with stepped.patched_clock(w.clock):
+                req = GeckoStatusBlockProtocolHandler.request(
+                    client.get_and_increment_sequence_counter(False), start, length, parms=parms
+                )
+                req._retry_count = N
+                st.retry_request(client, req, parms)
+        except Exception as e:  # noqa - the library cannot even build/queue the request for this range
+            return {"result": f"raised {e!r} while building the request", "installs": [], "statu": 0, "block": st.status_block,
+                    "late_installs": 0, "errors": []}
         T = req._timeout_in_seconds
         hz = horizon or ((N + 1) * (T + nseg(length) * 0.05 + 1.0) + 10.0)
         t0 = w.now()
